@@ -236,9 +236,38 @@ def convF : PFields → Lv → Src → Cols
     convN tn trp (stepS nm trp lv s).1 (stepS nm trp lv s).2 ++ convF tfs lv s
 end
 
-/-- MIRROR of `conversion.Convert` for one row given as per-column streams -/
-def convertRow (src tgt : PNode) (cols : Cols) : Cols :=
+/-- `conversion.Convert` for one row BEFORE the repair fa179c0 (kept as a regression fact), and the
+    first stage of the mirror as it stands: conversion functions, then the zero fix-up of columns
+    whose max definition level is 0. -/
+def convertRow_before_fix (src tgt : PNode) (cols : Cols) : Cols :=
   convN tgt .req lv0 (.on src cols none)
+
+mutual
+/-- `targetColumn.maxDefinitionLevel` of every leaf column of a node entered at definition level `d` -/
+def maxDefsN : PNode → Nat → List Nat
+  | .leaf, d => [d]
+  | .group fs, d => maxDefsF fs d
+def maxDefsF : PFields → Nat → List Nat
+  | .nil, _ => []
+  | .cons _ rp n fs, d => maxDefsN n (d + defOf rp) ++ maxDefsF fs d
+end
+
+/-- convert.go `conversionColumn.convert` since repair fa179c0: a null that the level mapping made
+    PRESENT (definition level = the column's maximum: optional → required leaf) becomes the typed
+    zero of the column (`conv.zeroValue`, `Type.Length()` zero bytes for FIXED_LEN_BYTE_ARRAY:
+    `some 0` stands for the typed zero), levels kept. -/
+def zeroCol (td : Nat) (c : List Triple) : List Triple :=
+  c.map fun t => if t.val.isNone && t.dfn == td then ⟨some 0, t.rep, t.dfn⟩ else t
+
+def zeroAtMax (tds : List Nat) (X : Cols) : Cols := List.zipWith zeroCol tds X
+
+/-- MIRROR of `conversion.Convert` for one row given as per-column streams (as the code stands
+    after repair fa179c0): per column `convertValues`, the zero fix-up for max definition level 0
+    (`convN`), then the typed zero for nulls at the column's max definition level. In a column
+    with max definition level 0 no null is left by the first fix-up, so applying the second to
+    every column is what the `else if` of the code does. -/
+def convertRow (src tgt : PNode) (cols : Cols) : Cols :=
+  zeroAtMax (maxDefsN tgt 0) (convertRow_before_fix src tgt cols)
 
 /-! ## Compatible targets (hypothesis of `convert_shred`) -/
 
